@@ -13,6 +13,7 @@ import (
 	"os"
 	"runtime"
 	"strconv"
+	"strings"
 
 	_ "github.com/pion/interceptor/verifh/c01"
 	_ "github.com/pion/interceptor/verifh/c02"
@@ -92,6 +93,12 @@ func main() {
 			art.Replay = raw
 		}
 		if msg := c.Replay(art.Replay); msg != "" {
+			for _, p := range []string{"bad replay", "bad scenario", "unknown scenario", "UNREPRODUCIBLE", "input index out of range"} {
+				if strings.HasPrefix(msg, p) {
+					fmt.Println("REPLAY-ERROR:", msg)
+					os.Exit(2)
+				}
+			}
 			fmt.Println("REPRODUCED:", msg)
 			os.Exit(1)
 		}
